@@ -2,6 +2,7 @@
 use q1t_harness::*;
 use q1t_harness::gate;
 use q1tsim::gates::Gate;
+use ndarray::s;
 
 fn show_mat(m: &q1tsim::cmatrix::CMatrix) -> String
 {
@@ -106,6 +107,385 @@ fn main()
             }
         }
     }
+    placed_stream(&mut out, &mut rng);
+    layout_stream(&mut out, &mut rng);
     let n = out.finish();
     eprintln!("c05: {} cases", n);
+}
+
+// ------------------------------------------------------------------------------------------------
+// "placed" stream: Composite / Loop terms whose sub-gate acts on 4 or 5 qubits, on every operand order
+
+fn nat<'a, It: Iterator<Item = &'a str>>(it: &mut It) -> usize { it.next().expect("nat").parse().expect("nat") }
+
+fn nr_params(name: &str) -> usize
+{
+    gate::PARAM1.iter().chain(gate::PARAM2.iter()).chain(gate::PARAM3.iter()).find(|(g, _)| *g == name).map(|(_, k)| *k).unwrap_or(0)
+}
+
+/// Like `gate::parse` (sub-gates placed with `Composite::add_gate`), except that a Composite (or Loop body) whose name
+/// starts with `fs` is built with `Composite::from_string` from the description its sub-gates spell (library gates only).
+fn parse_fs<'a, It: Iterator<Item = &'a str>>(it: &mut std::iter::Peekable<It>) -> gate::Dyn
+{
+    use q1tsim::gates::{C, Kron, Composite, Loop};
+    let head: &str = *it.peek().expect("gate name");
+    match head
+    {
+        "C" => { it.next(); let g = parse_fs(it); gate::Dyn::Plain(std::rc::Rc::new(C::new(g))) },
+        "Kron" => { it.next(); let a = parse_fs(it); let b = parse_fs(it); gate::Dyn::Full(Box::new(Kron::new(a, b))) },
+        "Comp" | "Loop" => {
+            it.next();
+            let lp = if head == "Loop" { let l = it.next().expect("label").to_string(); let n = nat(it); Some((l, n)) } else { None };
+            let name = it.next().expect("name").to_string();
+            let nb = nat(it);
+            let k = nat(it);
+            let comp = if name.starts_with("fs")
+            {
+                let mut descs: Vec<String> = vec![];
+                for _ in 0..k
+                {
+                    let g = it.next().expect("library gate");
+                    let args: Vec<String> = (0..nr_params(g)).map(|_| format!("{:?}", gate::hex_f64(it.next().expect("param")))).collect();
+                    let m = nat(it);
+                    let bits: Vec<usize> = (0..m).map(|_| nat(it)).collect();
+                    descs.push(if args.is_empty() { format!("{} {}", g, join(&bits)) } else { format!("{}({}) {}", g, args.join(", "), join(&bits)) });
+                }
+                let c = Composite::from_string(&name, &descs.join("; ")).expect("from_string");
+                assert_eq!(c.nr_affected_bits(), nb, "from_string width");
+                c
+            }
+            else
+            {
+                let mut c = Composite::new(&name, nb);
+                for _ in 0..k
+                {
+                    let g = parse_fs(it);
+                    let m = nat(it);
+                    let bits: Vec<usize> = (0..m).map(|_| nat(it)).collect();
+                    c.add_gate(g, &bits);
+                }
+                c
+            };
+            match lp { Some((l, n)) => gate::Dyn::Full(Box::new(Loop::new(&l, n, comp))), None => gate::Dyn::Full(Box::new(comp)) }
+        },
+        _ => gate::parse(it)
+    }
+}
+
+fn emit_fs(out: &mut Out, term: &str)
+{
+    let t = term.to_string();
+    let ans = catch(move || { let g = parse_fs(&mut t.split_whitespace().peekable()); (g.nr_affected_bits(), show_mat(&g.matrix())) });
+    match ans
+    {
+        Some((nb, m)) => { out.case(&format!("matrix {}", term), &m); out.case(&format!("nrbits {}", term), &format!("ok {}", nb)); },
+        None => out.case(&format!("matrix {}", term), "panic")
+    }
+}
+
+/// positive dyadic angles: their shortest decimal text is read back exactly by `Composite::from_string`
+const DYADIC: [f64; 8] = [0.75, 1.25, 2.5, 0.375, 3.0, 5.5, 0.625, 1.0];
+
+/// a primitive on k qubits; `fs`: spellable for from_string (dyadic positive parameters)
+fn prim(k: usize, fs: bool, rng: &mut SplitMix64) -> String
+{
+    if !fs { return gate::gen_prim(k, rng); }
+    let (consts, params): (&[&str], &[(&str, usize)]) = match k
+        { 1 => (&gate::CONST1, &gate::PARAM1), 2 => (&gate::CONST2, &gate::PARAM2), _ => (&gate::CONST3, &gate::PARAM3) };
+    if rng.below(2) == 0 { rng.pick(consts).to_string() }
+    else
+    {
+        let (g, np) = *rng.pick(params);
+        let mut s = g.to_string();
+        for _ in 0..np { s += " "; s += &fbits(*rng.pick(&DYADIC)); }
+        s
+    }
+}
+
+/// a one-qubit gate that is neither diagonal nor a Pauli (so that exchanging two qubits of a product shows)
+fn skew1(rng: &mut SplitMix64) -> String
+{
+    match rng.below(5)
+    {
+        0 => "H".to_string(), 1 => "V".to_string(),
+        2 => format!("RX {}", fbits(0.3 + rng.unit())), 3 => format!("RY {}", fbits(0.3 + rng.unit())),
+        _ => format!("U3 {} {} {}", fbits(0.3 + rng.unit()), fbits(0.2 + rng.unit()), fbits(-0.4 - rng.unit()))
+    }
+}
+
+fn pick_bits(n: usize, k: usize, rng: &mut SplitMix64) -> Vec<usize>
+{
+    let mut all: Vec<usize> = (0..n).collect();
+    rng.shuffle(&mut all);
+    all.truncate(k);
+    all
+}
+
+/// the ops of a composite on `n` (4 or 5) qubits that uses every qubit: `<k> {<term> <m> <bits>}*k`
+fn wide_ops(n: usize, fs: bool, rng: &mut SplitMix64) -> String
+{
+    let mut ops: Vec<String> = vec![];
+    // a chain touching every qubit with distinct two-qubit gates, then random primitives on random operands
+    ops.push(format!("{} 2 {} {}", prim(2, fs, rng), n - 1, 0));
+    ops.push(format!("{} 1 {}", if fs { "H".to_string() } else { skew1(rng) }, 1));
+    ops.push(format!("CRY {} 2 1 2", fbits(*rng.pick(&DYADIC))));
+    for _ in 0..(1 + rng.below(3))
+    {
+        let m = 1 + rng.below(3) as usize;
+        let g = if fs || rng.coin() { prim(m, fs, rng) } else { gate::gen_term(m, 1, rng) };
+        ops.push(format!("{} {} {}", g, m, join(&pick_bits(n, m, rng))));
+    }
+    ops.push(format!("CRX {} 2 {} {}", fbits(*rng.pick(&DYADIC)), n - 2, n - 3));
+    format!("{} {}", ops.len(), ops.join(" "))
+}
+
+const NR_WIDE4: usize = 12;
+/// a gate term on exactly 4 qubits, of shape `kind`
+fn wide4(kind: usize, rng: &mut SplitMix64) -> String
+{
+    match kind
+    {
+        0 => format!("Kron Kron {} {} Kron {} {}", skew1(rng), skew1(rng), skew1(rng), skew1(rng)),
+        1 => format!("Kron {} {}", prim(2, false, rng), prim(2, false, rng)),
+        2 => format!("Kron CRX {} CRY {}", fbits(gate::gen_angle(rng)), fbits(gate::gen_angle(rng))),
+        3 => format!("Kron {} Kron {} {}", skew1(rng), prim(2, false, rng), skew1(rng)),
+        4 => if rng.coin() { format!("Kron {} {}", prim(3, false, rng), skew1(rng)) } else { format!("Kron {} {}", skew1(rng), prim(3, false, rng)) },
+        5 => "C C CX".to_string(),
+        6 => format!("C Kron {} {}", skew1(rng), prim(2, false, rng)),
+        7 => format!("C C Kron {} {}", skew1(rng), skew1(rng)),
+        8 => format!("Comp in{} 4 {}", rng.below(100), wide_ops(4, false, rng)),
+        9 => format!("Comp fs{} 4 {}", rng.below(100), wide_ops(4, true, rng)),
+        10 => format!("Loop li{} 2 bi{} 4 {}", rng.below(100), rng.below(100), wide_ops(4, false, rng)),
+        _ => format!("Loop lf{} 2 fs{} 4 {}", rng.below(100), rng.below(100), wide_ops(4, true, rng)),
+    }
+}
+
+const NR_WIDE5: usize = 6;
+fn wide5(kind: usize, rng: &mut SplitMix64) -> String
+{
+    match kind
+    {
+        0 => format!("Kron {} {}", prim(2, false, rng), prim(3, false, rng)),
+        1 => format!("Kron Kron {} {} Kron {} Kron {} {}", skew1(rng), skew1(rng), skew1(rng), skew1(rng), skew1(rng)),
+        2 => format!("C Kron CRZ {} CRX {}", fbits(gate::gen_angle(rng)), fbits(gate::gen_angle(rng))),
+        3 => "C C C CX".to_string(),
+        4 => format!("Comp in{} 5 {}", rng.below(100), wide_ops(5, false, rng)),
+        _ => format!("Comp fs{} 5 {}", rng.below(100), wide_ops(5, true, rng)),
+    }
+}
+
+/// every ordered selection of `k` distinct elements of 0..n
+fn selections(n: usize, k: usize) -> Vec<Vec<usize>>
+{
+    fn go(n: usize, k: usize, cur: &mut Vec<usize>, res: &mut Vec<Vec<usize>>)
+    {
+        if cur.len() == k { res.push(cur.clone()); return; }
+        for q in 0..n { if !cur.contains(&q) { cur.push(q); go(n, k, cur, res); cur.pop(); } }
+    }
+    let mut res = vec![];
+    go(n, k, &mut vec![], &mut res);
+    res
+}
+
+/// the sub-gate `g` (on `bits.len()` qubits) inside an outer Composite / Loop on `n` qubits, between two other sub-gates
+fn outer(shape: usize, n: usize, g: &str, bits: &[usize], rng: &mut SplitMix64) -> String
+{
+    let pre = format!("{} 1 {}", skew1(rng), rng.below(n as u64));
+    let post = format!("{} 2 {}", prim(2, false, rng), join(&pick_bits(n, 2, rng)));
+    let mid = format!("{} {} {}", g, bits.len(), join(bits));
+    match shape % 4
+    {
+        0 => format!("Comp out{} {} 1 {}", rng.below(100), n, mid),
+        1 => format!("Comp out{} {} 3 {} {} {}", rng.below(100), n, pre, mid, post),
+        2 => format!("Loop lo{} 2 bo{} {} 2 {} {}", rng.below(100), rng.below(100), n, mid, post),
+        _ => format!("Comp top{} {} 2 {} Loop lo{} 1 bo{} {} 2 {} {} {} {}", rng.below(100), n, pre, rng.below(100), rng.below(100), n, post, mid,
+                     n, join(&(0..n).collect::<Vec<_>>())),
+    }
+}
+
+fn placed_stream(out: &mut Out, rng: &mut SplitMix64)
+{
+    let mut shape = 0usize;
+    // 4-qubit sub-gates: every order of the 4 qubits of a 4-qubit composite, every ordered selection of 4 out of 5
+    for n in 4..6
+    {
+        let sels = selections(n, 4);
+        for (i, bits) in sels.iter().enumerate()
+        {
+            // interior out of order between the minimum (first) and the maximum (last), e.g. [0,2,1,3], [1,3,2,4]
+            let inner_swapped = bits[0] + 3 == bits[3] && bits[1] > bits[2];
+            let kinds: Vec<usize> = if thorough() || n == 4 || inner_swapped { (0..NR_WIDE4).collect() }
+                else { (0..3).map(|j| (i * 5 + j * 4) % NR_WIDE4).collect() };
+            for kind in kinds
+            {
+                let g = wide4(kind, rng);
+                shape += 1;
+                emit_fs(out, &outer(shape, n, &g, bits, rng));
+            }
+        }
+    }
+    // 5-qubit sub-gates in a 5-qubit composite
+    let mut perms = selections(5, 5);
+    if !thorough()
+    {
+        let mut fixed: Vec<Vec<usize>> = vec![vec![0, 1, 2, 3, 4], vec![4, 3, 2, 1, 0], vec![0, 2, 1, 3, 4], vec![0, 1, 3, 2, 4], vec![0, 3, 2, 1, 4],
+            vec![0, 2, 3, 1, 4], vec![0, 3, 1, 2, 4], vec![1, 0, 2, 3, 4], vec![0, 1, 2, 4, 3], vec![4, 0, 1, 2, 3], vec![1, 2, 3, 4, 0], vec![2, 0, 4, 1, 3]];
+        rng.shuffle(&mut perms);
+        perms.truncate(12);
+        fixed.append(&mut perms);
+        perms = fixed;
+    }
+    for bits in perms.iter()
+    {
+        for kind in 0..NR_WIDE5
+        {
+            let g = wide5(kind, rng);
+            shape += 1;
+            emit_fs(out, &outer(shape, 5, &g, bits, rng));
+        }
+    }
+}
+
+// ------------------------------------------------------------------------------------------------
+// "layout" stream: apply_mat / apply_mat_slice on one logical matrix held in different memory layouts
+
+type Cplx = num_complex::Complex64;
+
+/// `layout`: how the logical rows x cols matrix `data` (row-major) is stored when the gate is applied to it
+fn apply_in_layout(g: &gate::Dyn, layout: &str, rows: usize, cols: usize, data: &[Cplx]) -> Vec<Cplx>
+{
+    use ndarray::{Array2, ShapeBuilder};
+    let at = |i: usize, j: usize| data[i * cols + j];
+    let junk = Cplx::new(0.8125, -0.4375);
+    let res: Array2<Cplx> = match layout
+    {
+        // row-major owned
+        "rm" => { let mut a = Array2::from_shape_vec((rows, cols), data.to_vec()).unwrap(); g.apply_mat(&mut a); a },
+        // column-major owned, built from the column-major data
+        "cm" => {
+            let d: Vec<Cplx> = (0..cols).flat_map(|j| (0..rows).map(move |i| (i, j))).map(|(i, j)| at(i, j)).collect();
+            let mut a = Array2::from_shape_vec((rows, cols).f(), d).unwrap();
+            assert!(rows < 2 || cols < 2 || (a.as_slice().is_none() && a.as_slice_memory_order().is_some()), "layout cm");
+            g.apply_mat(&mut a); a
+        },
+        // the owned copy of the transpose of the transposed matrix
+        "tt" => {
+            let d: Vec<Cplx> = (0..cols).flat_map(|j| (0..rows).map(move |i| (i, j))).map(|(i, j)| at(i, j)).collect();
+            let t = Array2::from_shape_vec((cols, rows), d).unwrap();
+            let mut a = t.t().to_owned();
+            g.apply_mat(&mut a); a
+        },
+        // reversed_axes of the transposed matrix
+        "rev" => {
+            let d: Vec<Cplx> = (0..cols).flat_map(|j| (0..rows).map(move |i| (i, j))).map(|(i, j)| at(i, j)).collect();
+            let mut a = Array2::from_shape_vec((cols, rows), d).unwrap().reversed_axes();
+            g.apply_mat(&mut a); a
+        },
+        // column-major zeros, assigned
+        "cmz" => {
+            let mut a = Array2::<Cplx>::zeros((rows, cols).f());
+            for i in 0..rows { for j in 0..cols { a[[i, j]] = at(i, j); } }
+            g.apply_mat(&mut a); a
+        },
+        // owned, every second column of a wider row-major array (not contiguous)
+        "sc" | "vsc" => {
+            let mut d = vec![junk; rows * cols * 2];
+            for i in 0..rows { for j in 0..cols { d[i * 2 * cols + 2 * j] = at(i, j); } }
+            let big = Array2::from_shape_vec((rows, 2 * cols), d).unwrap();
+            if layout == "sc" { let mut a = big.slice_move(s![.., ..;2]); assert!(cols < 2 || a.as_slice_memory_order().is_none(), "layout sc"); g.apply_mat(&mut a); a }
+            else
+            {
+                let mut big = big;
+                g.apply_mat_slice(big.slice_mut(s![.., ..;2]));
+                for i in 0..rows { for j in 0..cols { assert!(big[[i, 2 * j + 1]] == junk, "wrote outside the view"); } }
+                big.slice(s![.., ..;2]).to_owned()
+            }
+        },
+        // owned, every second row of a taller row-major array
+        "sr" | "vsr" => {
+            let mut d = vec![junk; rows * cols * 2];
+            for i in 0..rows { for j in 0..cols { d[2 * i * cols + j] = at(i, j); } }
+            let big = Array2::from_shape_vec((2 * rows, cols), d).unwrap();
+            if layout == "sr" { let mut a = big.slice_move(s![..;2, ..]); g.apply_mat(&mut a); a }
+            else
+            {
+                let mut big = big;
+                g.apply_mat_slice(big.slice_mut(s![..;2, ..]));
+                for i in 0..rows { for j in 0..cols { assert!(big[[2 * i + 1, j]] == junk, "wrote outside the view"); } }
+                big.slice(s![..;2, ..]).to_owned()
+            }
+        },
+        // owned, every second column of a wider COLUMN-major array
+        "scf" => {
+            let mut big = Array2::from_elem((rows, 2 * cols).f(), junk);
+            for i in 0..rows { for j in 0..cols { big[[i, 2 * j]] = at(i, j); } }
+            let mut a = big.slice_move(s![.., ..;2]);
+            g.apply_mat(&mut a); a
+        },
+        // rows stored in reverse (negative stride)
+        "neg" => {
+            let d: Vec<Cplx> = (0..rows).rev().flat_map(|i| (0..cols).map(move |j| (i, j))).map(|(i, j)| at(i, j)).collect();
+            let mut a = Array2::from_shape_vec((rows, cols), d).unwrap();
+            a.invert_axis(ndarray::Axis(0));
+            g.apply_mat(&mut a); a
+        },
+        // a view of a column-major array through apply_mat_slice
+        "vcm" => {
+            let mut a = Array2::<Cplx>::zeros((rows, cols).f());
+            for i in 0..rows { for j in 0..cols { a[[i, j]] = at(i, j); } }
+            g.apply_mat_slice(a.view_mut()); a
+        },
+        other => panic!("unknown layout {}", other)
+    };
+    assert_eq!((res.rows(), res.cols()), (rows, cols));
+    let mut v = Vec::with_capacity(rows * cols);
+    for i in 0..rows { for j in 0..cols { v.push(res[[i, j]]); } }
+    v
+}
+
+const LAYOUTS: [&str; 12] = ["rm", "cm", "tt", "rev", "cmz", "sc", "vsc", "sr", "vsr", "scf", "neg", "vcm"];
+
+fn show_c(v: &[Cplx]) -> String { v.iter().map(|c| format!("{} {}", fbits(c.re), fbits(c.im))).collect::<Vec<_>>().join(" ") }
+
+/// request `applymat <layout> <cols> <term> <row-major entries of the logical matrix>`; answer `ok <rows> <cols> <entries>`
+fn emit_layout(out: &mut Out, layout: &str, term: &str, rows: usize, cols: usize, data: &[Cplx])
+{
+    let (t, l, d) = (term.to_string(), layout.to_string(), data.to_vec());
+    let ans = catch(move || { let g = gate::parse_str(&t); apply_in_layout(&g, &l, rows, cols, &d) });
+    out.case(&format!("applymat {} {} {} {}", layout, cols, term, show_c(data)),
+        &match ans { Some(v) => format!("ok {} {} {}", rows, cols, show_c(&v)), None => "panic".to_string() });
+}
+
+fn layout_stream(out: &mut Out, rng: &mut SplitMix64)
+{
+    let mut terms: Vec<(String, usize)> = gate::registry(rng);
+    // combinators that hand the whole matrix to a sub-gate on local qubit 0, and some that do not
+    for t in ["Comp a 1 1 X 1 0", "Comp a 2 2 X 1 0 CX 2 1 0", "Comp a 2 2 Y 1 0 H 1 1", "Comp a 3 3 CCX 3 2 0 1 Y 1 0 X 1 2",
+              "Loop l 3 b 2 2 X 1 0 CY 2 0 1", "Loop l 1 b 1 1 Y 1 0", "Kron X Y", "Kron Y H", "C X", "C Y", "C Kron X Y", "Kron X CX",
+              "Comp a 2 1 Comp b 1 2 X 1 0 T 1 0 1 0", "Comp a 3 2 Kron X Y 2 0 1 Kron Y X 2 2 0", "Comp a 4 2 Kron Kron X Y Kron Y H 4 0 2 1 3 X 1 0"].iter()
+    {
+        let g = gate::parse_str(t);
+        terms.push((t.to_string(), g.nr_affected_bits()));
+    }
+    for _ in 0..(if thorough() { 60 } else { 8 })
+    {
+        let k = 1 + rng.below(3) as usize;
+        terms.push((gate::gen_term(k, 2, rng), k));
+    }
+    let shapes: &[(usize, usize)] = if thorough() { &[(1, 1), (1, 2), (1, 3), (2, 2), (2, 3), (4, 5), (1, 4)] } else { &[(1, 2), (1, 3), (2, 3), (2, 2)] };
+    for (term, nb) in terms.iter()
+    {
+        for (si, (mult, cols)) in shapes.iter().enumerate()
+        {
+            let rows = (1usize << nb) * mult;
+            if rows * cols > 200 { continue; }
+            let data: Vec<Cplx> = (0..rows * cols).map(|_| Cplx::new(rng.range(-64, 64) as f64 / 32.0, rng.range(-64, 64) as f64 / 32.0)).collect();
+            for (li, layout) in LAYOUTS.iter().enumerate()
+            {
+                // quick: every layout on the first two shapes, a rotating third of them on the others
+                if !thorough() && si >= 2 && (li + si) % 3 != 0 { continue; }
+                emit_layout(out, layout, term, rows, *cols, &data);
+            }
+        }
+    }
 }
